@@ -12,12 +12,12 @@ import (
 
 func init() {
 	register(&Property{
-		ID:        "C09",
-		Title:     "No data races or interleaved writes under concurrent use",
-		DesignRef: "DESIGN.md §3 C09",
-		Technique: "field-based lockset analysis over go/ssa with may-happen-in-parallel contexts taken from the source (handler || handler, packet loop after 'go forward' || forward, gRPC method || gRPC method): every access to a location written on a request path must hold the location's mutex (exclusive for writes), or the location is internally synchronised or written only at start-up; single-writer third-party APIs on shared receivers count as writes; Lock/Unlock pairing on all exits",
-		LevelText: "Static: (1) every package-level variable that request-serving code writes is accessed, in request-serving code, only while its mutex is held (writes under the exclusive lock); (2) every Tunnel field that both the packet loop's side and the relay goroutine's side touch, with at least one write, is accessed only under the tunnel's write mutex, and the outbound transport's writer (WritePacket) is called on the shared tunnel only under that mutex; (3) no request-serving code stores to fields of process-wide singletons (Gateway, web Handler, OIDC, proxies, auth handlers); (4) every Lock is released on all exits; (5) the legacy OUT->IN hand-off publishes the tunnel through go-cache after its last write. A lockset analysis is sound for the frozen location set and conservative for new sharing; orderings that exist only through protocol behaviour are named as such.",
-		LevelNote: "Trusted: sync.Mutex semantics, internal synchronisation of go-cache, prometheus collectors, channels. Not decided: races inside dependencies (gokrb5's randServOrder permutes the shared config slice), actual schedules. Named orderings: ntlmContext.session is shared only between requests of one NTLM session id (the client's TCP address; HTTP/1.1 requests on one connection are sequential, HTTP/2 is disabled in main).",
+		ID:          "C09",
+		Title:       "No data races or interleaved writes under concurrent use",
+		DesignRef:   "DESIGN.md §3 C09",
+		Technique:   "field-based lockset analysis over go/ssa with may-happen-in-parallel contexts taken from the source (handler || handler, packet loop after 'go forward' || forward, gRPC method || gRPC method): every access to a location written on a request path must hold the location's mutex (exclusive for writes), or the location is internally synchronised or written only at start-up; single-writer third-party APIs on shared receivers count as writes; Lock/Unlock pairing on all exits",
+		LevelText:   "Static: (1) every package-level variable that request-serving code writes is accessed, in request-serving code, only while its mutex is held (writes under the exclusive lock); (2) every Tunnel field that both the packet loop's side and the relay goroutine's side touch, with at least one write, is accessed only under the tunnel's write mutex, and the outbound transport's writer (WritePacket) is called on the shared tunnel only under that mutex; (3) no request-serving code stores to fields of process-wide singletons (Gateway, web Handler, OIDC, proxies, auth handlers); (4) every Lock is released on all exits; (5) the legacy OUT->IN hand-off publishes the tunnel through go-cache after its last write. A lockset analysis is sound for the frozen location set and conservative for new sharing; orderings that exist only through protocol behaviour are named as such.",
+		LevelNote:   "Trusted: sync.Mutex semantics, internal synchronisation of go-cache, prometheus collectors, channels. Not decided: races inside dependencies (gokrb5's randServOrder permutes the shared config slice), actual schedules. Named orderings: ntlmContext.session is shared only between requests of one NTLM session id (the client's TCP address; HTTP/1.1 requests on one connection are sequential, HTTP/2 is disabled in main).",
 		Explanation: "C09/globals inventories stores, map updates and deletes through package variables in request-reachable functions and checks the lock held at every request-reachable access of those variables. C09/tunnel intersects the Tunnel fields touched from forward's call tree with those touched from Process's call tree. C09/singletons inventories stores to fields of singleton types. C09/lock-pairing pairs every Lock/RLock with its Unlock/RUnlock. C09/handoff checks the publication order in the legacy handler.",
 		Assumptions: []string{"HTTP/2 stays disabled (TLSNextProto set to an empty map in main), so requests on one connection are sequential"},
 		Rules: []RuleDef{
